@@ -212,7 +212,7 @@ impl Engine for FileE2e {
             }));
             fs
         };
-        let clock = SimClock(Arc::new(Mutex::new(Duration::from_secs(1_716_778_800))));
+        let clock = SimClock::new(Duration::from_secs(1_716_778_800));
         let fs_a = mk_fs();
         let fs_b = mk_fs();
         // writer variants: 0 default JSON writer; 1 custom, record not terminated (emit must append the separator);
@@ -286,14 +286,14 @@ impl Engine for FileE2e {
                 .max_file_size_bytes(max_size)
                 .roll_by_minute(),
         };
-        let set_a = builder_a
-            .verif_spawn_with(fs_a.clone(), clock.clone(), SimRng(Arc::new(Mutex::new(Rng::new(rng_seed)))));
+        // the production `FileSetBuilder::spawn`, as it is: its constructors for the filesystem, the clock and the random
+        // source hand out what is injected here (the earlier hook `verif_spawn_with` was a copy of `spawn`'s body, so an
+        // edit to the real one went unseen)
+        emit_file::verif::inject(fs_a.clone(), clock.clone(), SimRng(Arc::new(Mutex::new(Rng::new(rng_seed)))));
+        let set_a = builder_a.spawn();
         let set_b = if two_sets {
-            Some(
-                emit_file::set("logs/b/other.txt")
-                    .reuse_files(reuse)
-                    .verif_spawn_with(fs_b.clone(), clock.clone(), SimRng(Arc::new(Mutex::new(Rng::new(rng_seed + 1))))),
-            )
+            emit_file::verif::inject(fs_b.clone(), clock.clone(), SimRng(Arc::new(Mutex::new(Rng::new(rng_seed + 1)))));
+            Some(emit_file::set("logs/b/other.txt").reuse_files(reuse).spawn())
         } else {
             None
         };
